@@ -311,6 +311,7 @@ def m_iter_next(m, callee, a):
     if it.kind == 'chars':
         if it.pos < len(it.cells):
             c = it.cells[it.pos]; it.pos += 1
+            if it.extra == 'enumerate': return some(Agg(None, None, None, [it.pos - 1, c]))
             return some(c)
         return none()
     if it.pos >= len(it.cells): return none()
@@ -554,8 +555,7 @@ def render_args(m, fa):
             out.extend(bytes(t[i:i + ln]).decode('utf-8')); i += ln
         elif n == 0xC0:
             arg = fa.args[argi]; argi += 1
-            if arg.kind != 'display': raise Unsupported('debug formatting')
-            out.extend(render_display(m, arg.ptr))
+            out.extend(render_display(m, arg.ptr) if arg.kind == 'display' else render_debug(m, arg.ptr))
         else:
             raise Unsupported('format spec with options')
     return out
@@ -574,6 +574,29 @@ def rust_f64(x):
         from decimal import Decimal
         return format(Decimal(s), 'f')
     return s
+
+
+def rust_f64_debug(x):
+    """{:?} of an f64: at least one fractional digit; exponent form below 1e-4 and from 1e16 (the thresholds Python's repr uses too)"""
+    if x != x: return 'NaN'
+    if x in (float('inf'), float('-inf')): return 'inf' if x > 0 else '-inf'
+    s = repr(float(x))
+    if 'e' in s:
+        mant, ex = s.split('e')
+        if mant.endswith('.0'): mant = mant[:-2]
+        return '%se%d' % (mant, int(ex))
+    return s
+
+
+def render_debug(m, v):
+    while isinstance(v, (Ptr, RcV)): v = v.cell.v
+    if isinstance(v, StrRef): v = v.s
+    if isinstance(v, float): return list(rust_f64_debug(v))
+    if isinstance(v, (bool, int)): return render_display(m, v)
+    if isinstance(v, Sym) and v.ty != 'char' and not v.ty.startswith('f'): return [SymText(v)]
+    if isinstance(v, RStr) and all(isinstance(c, str) and (c.isalnum() or c in ' _$.,()[]|-+*/=<>:;!?') for c in v.chars):
+        return ['"'] + list(v.chars) + ['"']
+    raise Unsupported('debug formatting of %r' % (type(v).__name__,))
 
 
 def render_display(m, v):
@@ -806,13 +829,18 @@ def m_tt_new(m, c, a): return Agg('ThreadTimer', None, None, [])
 @model('ThreadTimer::start')
 def m_tt_start(m, c, a):
     # the closure may run at any later observation of the stop flag; the harness picks the point (stop_countdown)
-    m.timer = {'closure': a[2], 'armed': True}
+    m.timer = {'closure': a[2], 'armed': True, 'fired': False}
     return ok(UNIT)
 
 
 @model('ThreadTimer::cancel')
 def m_tt_cancel(m, c, a):
-    if m.timer is not None: m.timer['armed'] = False
+    # thread_timer 0.3: cancel() on a timer that is not waiting any more (it has fired) is Err(NotWaiting)
+    if m.timer is not None:
+        m.timer['armed'] = False
+        if m.timer.get('fired'):
+            m.timer['fired'] = False
+            return err(Agg('TimerCancelError', 'NotWaiting', 0, []))
     return ok(UNIT)
 
 
